@@ -28,7 +28,15 @@ def knots(rng, n):
         else:
             x = rng.choice([x + rng.uniform(0, 1), x - rng.uniform(0, 1), x, x + EPS, x + EPS / 2, 0.0, -0.0])
         xs.append(x)
-    return style, [[C.bits(x), C.bits(rng.choice([rng.small_int(-5, 5), rng.uniform(-4, 4), rng.f64_loguniform(-10, 10)]))] for x in xs]
+    ks = [[C.bits(x), C.bits(rng.choice([rng.small_int(-5, 5), rng.uniform(-4, 4), rng.f64_loguniform(-10, 10)]))] for x in xs]
+    if rng.random() < 0.2:
+        # a knot repeated verbatim (same x and same y), at the start, the end or inside; sometimes all knots identical
+        j = rng.choice([0, len(ks) - 1, rng.randrange(len(ks))])
+        ks.insert(j, list(ks[j]))
+        style += "+verbatim"
+        if rng.random() < 0.15:
+            ks = [list(ks[0]) for _ in ks]
+    return style, ks
 
 
 class P(Prop):
@@ -38,7 +46,7 @@ class P(Prop):
                 "C06_segment_right", "C06_segment_narrow", "C06_interpolant", "C06_segment_float", "C06_example"]
     KERNELS = ["linear::incr_linear", "linear::segment"]
     RULE = ("linear() on 2..12 finite knots: increasing, repeated, out-of-order abscissae, gaps in {eps/4, eps/2, eps(1-2^-53), eps, "
-            "eps(1+2^-52), 2eps, 2.5eps} (incl. at offset 1.0), large offsets; bit-exact model vs crate (sign of a zero produced by "
+            "eps(1+2^-52), 2eps, 2.5eps} (incl. at offset 1.0), large offsets, knots repeated verbatim (x and y); bit-exact model vs crate (sign of a zero produced by "
             "f64::max of two zeros ignored); exact-rational oracle: count, ends = running maximum, every segment through its "
             "forced left knot, through the right knot when >= eps wide, constant otherwise. non-trivial = >= 3 knots and not "
             "strictly increasing with big gaps; distinct by input")
